@@ -196,7 +196,7 @@ def r3_read_exact(ck, F, R="C11-R3"):
             if n.startswith("byteorder::ReadBytesExt::") or n in ("std::io::Read::read_exact", "std::io::Read::read_to_end", "std::io::Read::read_to_string", "std::io::Read::take", "std::io::Read::bytes", "std::io::Read::chain"):
                 inv.setdefault(n, []).append(b.path)
     ck.extra.setdefault("source_read_inventory", {})[F.config] = {k: len(v) for k, v in inv.items()}
-    ck.floor(R, "read_exact-style read sites", sum(len(v) for v in inv.values()), 9, F.config)
+    ck.floor(R, "read_exact-style read sites", sum(len(v) for v in inv.values()), 5, F.config)   # 12+ on the pinned tree; the two trailer versions may share their reads
     bad = [k for k in inv if k in ("std::io::Read::bytes",)]
     ck.ob(R, "no-bytewise-iteration", not bad, "no Read::bytes() iteration", config=F.config, nontrivial=False)
 
